@@ -429,6 +429,8 @@ def _role(text):
             return 'rowptr'
     if 'rows.searchsorted' in t or 'searchsorted' in t and 'rows' in t:
         return 'rowptr'
+    if 'bincount' in t and 'cumsum' in t:   # row pointers from per-row counts: complete only if the counts cover every row
+        return 'rowptr' if 'minlength' in t else 'rowptr-short'
     for k in ROLE_COL:
         if t.startswith(k) or t == k:
             return 'colidx'
@@ -479,8 +481,10 @@ def check_siblings(model, rep):
             rets = find_stmts(forms['csr'].body, lambda s: isinstance(s, ast.Return))
             for r in rets:
                 ok = isinstance(r.value, ast.Tuple) and len(r.value.elts) == 3 and _role(src(r.value.elts[1])) == 'colidx' and _role(src(r.value.elts[2])) == 'rowptr'
+                short = isinstance(r.value, ast.Tuple) and len(r.value.elts) == 3 and _role(src(r.value.elts[2])) == 'rowptr-short'
                 rep.ob('R15.3', ef.key, ef.where(r), ok, 'csr export is (data, column indices, row pointers)' if ok else
-                       f'`{stmt_text(r)}` does not return (data, colidx, rowptr) in this order', statement='export-csr-order')
+                       (f'`{stmt_text(r)[:90]}` builds the row pointers from numpy.bincount without minlength: structurally empty trailing rows get no pointer, so the exported triple (and a pickle made from it) '
+                        'describes a matrix with fewer rows' if short else f'`{stmt_text(r)}` does not return (data, colidx, rowptr) in this order'), statement='export-csr-order')
         if 'coo' in forms:
             rets = find_stmts(forms['coo'].body, lambda s: isinstance(s, ast.Return))
             for r in rets:
